@@ -153,9 +153,10 @@ def timer_tables(chk: Check, repo: Repo) -> None:
             n = call_name(c)
             if n == "self.verify_timer_notify_mac":
                 return [Outcome("VERIFY:ok", None)] if mac_ok else [Outcome("VERIFY:fail", Raise("KNXSecureValidationError"))]
-            if n == "fut.done":
-                return [Outcome(None, fut_done)]
-            if n == "fut.set_result":
+            if isinstance(c.func, ast.Attribute) and c.func.attr in ("done", "set_result") and box["am"].ev(c.func.value, env, {}) == fut:
+                # a method of the pending reply's future, however the code names it
+                if c.func.attr == "done":
+                    return [Outcome(None, fut_done)]
                 return [Outcome("SET_RESULT" if not fut_done else "SET_RESULT_ON_DONE_FUTURE", None)]
             return common(c, env, box)
 
@@ -220,8 +221,20 @@ def clock_writers(chk: Check, repo: Repo) -> None:
         chk.ob("clock-update-callers", f.site(c), f.qualname == "SecureSequenceTimer.synchronize", f"update() called from {f.qualname}", key=f"clock-update|{f.qualname}")
     sy = repo.func(M, "SecureSequenceTimer.synchronize")
     chk.unit(sy)
-    src = [n for n in walk_local(sy.node) if isinstance(n, ast.Assign) and ast.unparse(n.targets[0]) == "timer_value"]
-    chk.ob("clock-update-source", sy.site(), len(src) == 1 and ast.unparse(src[0].value) == "await waiter_fut", "the synchronised value is the result of the future completed by handle_timer_notify after MAC verification", key="clock-update-source")
+    from ..shape import single_assignments
+    d = single_assignments(sy.node)
+    upc = [c for c in calls(sy.node) if call_name(c) == "self.update"]
+    ok = False
+    if len(upc) == 1:
+        arg = upc[0].keywords[0].value if upc[0].keywords else (upc[0].args[0] if upc[0].args else None)
+        v = d.get(arg.id) if isinstance(arg, ast.Name) else arg
+        if isinstance(v, ast.Await) and isinstance(v.value, ast.Name):
+            fut_name = v.value.id
+            fdef = d.get(fut_name)
+            created = isinstance(fdef, ast.Call) and call_name(fdef).endswith("create_future")
+            stored = any(isinstance(n, ast.Assign) and ast.unparse(n.targets[0]) == "self._expected_notify_handler" and isinstance(n.value, ast.Tuple) and len(n.value.elts) == 2 and isinstance(n.value.elts[1], ast.Name) and n.value.elts[1].id == fut_name for n in walk_local(sy.node))
+            ok = created and stored
+    chk.ob("clock-update-source", sy.site(), ok, "the synchronised value is the result of the future this synchronize() created and stored as the expected reply, i.e. the one handle_timer_notify completes after MAC verification", key="clock-update-source")
     # validate_secure_wrapper is only called after decrypt_frame succeeded (table (a)) ; census of callers
     for f, c in call_sites(repo, "validate_secure_wrapper"):
         chk.ob("validate-callers", f.site(c), f.qualname == "SecureGroup.handle_knxipframe", f"validate_secure_wrapper called from {f.qualname}", key=f"validate-caller|{f.qualname}")
